@@ -16,6 +16,7 @@ type Val struct {
 	GoT    types.Type // may be nil for pure spec values
 	Aux    *Term      // contents array for slice-typed spec parameters
 	DerefT types.Type // non-nil: T is a pointer to a captured variable of this type, read at each use
+	Ghost  string     // non-empty: T is the ghost component of that name (indexed by object reference)
 }
 
 type Env struct {
@@ -424,6 +425,16 @@ func (env *Env) elabIdent(name string) (Val, error) {
 			return v, err
 		}
 	}
+	if g, ok := env.P.ghostComps[name]; ok {
+		if env.st == nil {
+			return Val{}, fmt.Errorf("ghost component %s read without state", name)
+		}
+		t, err := env.P.resolveType(env.P.pkgOf(g.Pkg), g.Type)
+		if err != nil {
+			return Val{}, err
+		}
+		return Val{T: env.st.getHeap(env.P, "X$"+name, fmt.Sprintf("(Array Int %s)", env.P.sorts.sortOf(t))), GoT: t, Ghost: name}, nil
+	}
 	if env.pkg != nil {
 		if o := env.pkg.Scope().Lookup(name); o != nil {
 			switch o.(type) {
@@ -503,6 +514,13 @@ func (env *Env) derefVal(v Val) (Val, error) {
 }
 
 func (env *Env) indexOf(v, i Val) (Val, error) {
+	if v.Ghost != "" {
+		idx := i.T
+		if idx.Sort == "Iface" {
+			idx = app("Int", "i_val", idx)
+		}
+		return Val{T: app(arrayElemSort(v.T.Sort), "select", v.T, idx), GoT: v.GoT}, nil
+	}
 	if v.T.Sort == "Str" {
 		return Val{T: app("Int", "sat", v.T, i.T), GoT: types.Typ[types.Uint8]}, nil
 	}
@@ -807,6 +825,26 @@ func (env *Env) elabCall(x ECall) (Val, error) {
 			return Val{T: app("Str", "schr", v.T), GoT: types.Typ[types.String]}, nil
 		}
 		return v, nil
+	case "unbox": // value stored in an interface: unbox(e, "T")
+		v, err := env.elab(x.Args[0])
+		if err != nil {
+			return Val{}, err
+		}
+		ts, ok := x.Args[1].(EStr)
+		if !ok || v.T.Sort != "Iface" || env.st == nil {
+			return Val{}, fmt.Errorf("unbox(e, \"T\") needs an interface value, a type string and a state")
+		}
+		t, err := P.resolveType(env.pkg, ts.V)
+		if err != nil {
+			return Val{}, err
+		}
+		switch t.Underlying().(type) {
+		case *types.Pointer, *types.Map, *types.Signature, *types.Chan:
+			return Val{T: app("Int", "i_val", v.T), GoT: t}, nil
+		}
+		srt := P.sorts.sortOf(t)
+		h := env.st.getHeap(P, "B$"+typeKey(t), fmt.Sprintf("(Array Int %s)", srt))
+		return Val{T: app(srt, "select", h, app("Int", "i_val", v.T)), GoT: t}, nil
 	case "samearr": // two slices share their backing array
 		a, err := env.elab(x.Args[0])
 		if err != nil {
@@ -831,7 +869,7 @@ func (env *Env) elabCall(x ECall) (Val, error) {
 		}
 		comp, sort := elemComp(u.Elem()), elemSort(P, u.Elem())
 		h0, h1 := env.old.getHeap(P, comp, sort), env.st.getHeap(P, comp, sort)
-		return Val{T: Term{fmt.Sprintf("(forall ((fa Int)) (! (=> (and (not (= fa (s_arr %s))) (< fa %s)) (= (select %s fa) (select %s fa))) :pattern ((select %s fa))))", a.T.S, env.old.next.S, h1.S, h0.S, h1.S), "Bool"}}, nil
+		return Val{T: Term{fmt.Sprintf("(forall ((fa Int)) (! (=> (and (or (not (= fa (s_arr %s))) (= fa 0)) (< fa %s)) (= (select %s fa) (select %s fa))) :pattern ((select %s fa))))", a.T.S, env.old.next.S, h1.S, h0.S, h1.S), "Bool"}}, nil
 	case "visited": // map-range ghost: key already produced by the enclosing range-over-map loop
 		if env.fx == nil || env.loop == nil || env.loop.rangeIt == nil {
 			return Val{}, fmt.Errorf("visited() outside a range-over-map loop clause")
